@@ -7,13 +7,16 @@ SPEC = hdr_spec(
     rule=GEN_RULE + "with consolidation, pruning (depths from MaxBranchDepth+2) and reload; dumps query HashHeight, CheckHeader, GetHeader, PreviousHash for EVERY header ever "
          "defined and Hash/Header/GetHeaders for every height, served from memory and from the 1000-header files; non-trivial = at least 8 submissions",
     props_file="C09", thorough_n=5000,
-    partial_note="that the per-branch height maps equal true heights in every reachable state (across Consolidate/Truncate/Connect/Prune/Reload/Load) is checked by the "
-                 "correspondence and the monitor on every dump, not yet proved.")
+    partial_note="exactness of the height maps (RepoWF: every hash held at exactly one place, maps = positions, Branches.Find answers with the owning branch, heights map sound) "
+                 "is a theorem for every state reached by any history of submissions (C09_wf_submissions and its four corollaries); across "
+                 "Consolidate/Truncate/Connect/Prune/Reload/Load it is checked by the correspondence and the monitor on every dump, not yet proved.")
 
 META = dict(
-    technique="Lean 4 proof (lookup decision logic, prune/extend preservation lemmas) + model/implementation correspondence on full lookup dumps",
+    technique="Lean 4 proof (inductive invariant RepoWF over submission histories: id uniqueness, exact height maps; lookup decision logic; prune/extend preservation lemmas) + model/implementation correspondence on full lookup dumps",
     text="Theorems for every repository state: unknown hashes are unknown to every lookup; the most-work-chain flag is true iff the best chain's header at that height has the "
          "requested hash; GetHeader through the long-lived map never returns another header; extension and pruning keep every retained lookup; a new header is recorded at "
-         "parent height + 1. The monitor recomputes true heights / ancestry from the header definitions and compares every lookup of every header at every dump.",
+         "parent height + 1. For every state reached by any history of submissions (C09_wf_submissions): the height reported for a hash is the position of that very header "
+         "(C09_height_is_position), a hash is held at exactly one place (C09_position_unique), GetHeader returns the requested header and is available while tracked "
+         "(C09_getHeader_tracked/_exact), PreviousHash is its true predecessor (C09_previousHash_exact). The monitor recomputes true heights / ancestry from the header definitions and compares every lookup of every header at every dump.",
     note=COMMON_NOTE + "Partial: see evidence. Pruned side-branch headers keep a height in the long-lived map by design.",
 )
